@@ -569,7 +569,11 @@ func (r *runningStep) Close() error {
 	r.cancel()
 	r.wg.Wait()
 	r.logger.Debugf("Closing inputData channel in foreach step provider")
+	// The lock ensures that a concurrent ProvideStageInput, which checks the closed flag
+	// and sends under the same lock, can never send on the closed channel.
+	r.lock.Lock()
 	close(r.executeInput)
+	r.lock.Unlock()
 	return nil
 }
 
